@@ -57,7 +57,9 @@ abbrev MxRenderer := Renderer Float (PSnd Float) (PFx Float) Unit MxEnv
 def mxC : Comps Float (PSnd Float) (PFx Float) Unit := probeComps
 
 /-- a track handle whose track no longer exists on the audio side (the track was dropped while in a
-    removed parent's ring): what the handle still answers -/
+    removed parent's ring): what the handle still answers.  Since kira fix "parent track was removed with
+    a sub-track still waiting to be added" no live handle can lose its track (`C12_removal_rule`); the
+    bookkeeping is kept so that a regression replays as the old zombie behaviour. -/
 structure Ghost where
   id : Nat
   pubState : Nat
@@ -282,16 +284,11 @@ def mixStep1 (st : MixState) (tok : List String) : Option (MixState × String) :
   | some r, ["q"] =>
       let m := r.mixer
       let infos := st.handles.filterMap (fun id => (handleInfo st m id).map (fun x => (id, x)))
-      if infos.any (fun x => (decodeTrackState x.2.1).isNone) then some (st, "fault panic")
-      else
-        let parts := infos.map (fun x =>
-          let nm := match decodeTrackState x.2.1 with
-            | some s => stateName s
-            | none => "?"
-          s!"t{x.1}={nm}/{x.2.2.1}/{x.2.2.2}")
-        some (st, String.intercalate " "
-          ([s!"subs={m.hNumSubTracks}", s!"sends={m.hNumSendTracks}",
-            s!"main={m.main.sounds.length + m.main.pendingSounds.length}"] ++ parts))
+      -- `TrackShared::state` is total: the query cannot panic
+      let parts := infos.map (fun x => s!"t{x.1}={stateName (decodeTrackState x.2.1)}/{x.2.2.1}/{x.2.2.2}")
+      some (st, String.intercalate " "
+        ([s!"subs={m.hNumSubTracks}", s!"sends={m.hNumSendTracks}",
+          s!"main={m.main.sounds.length + m.main.pendingSounds.length}"] ++ parts))
   | _, _ => none
 
 /-- split a token list at the `|` tokens -/
